@@ -132,7 +132,7 @@ Proof.
   all: assert (Hex : exists r0, nth_error rs (e_r e) = Some r0 /\ eff_exact r0 e)
          by (unfold effs_ok in Hok; rewrite Forall_forall in Hok; apply Hok; exact He).
   all: destruct Hex as (r0 & Hr0 & Hm & Hb & Hw); rewrite Hej in Hr0; rewrite Hj in Hr0; inversion Hr0; subst r0; clear Hr0.
-  all: assert (Hwn : e_wn e = e_mlen e) by lia.
+  all: assert (Hwn : e_wn e <= e_mlen e) by lia.
   all: set (p := e_woff e / r_ps r + N.of_nat k).
   all: assert (Hpi : page_in (r_ps r) (e_woff e) (e_wn e) p = true) by (apply page_of_run; lia).
   all: apply page_in_overlap in Hpi; try lia; destruct Hpi as (i & Hi & Hip).
@@ -144,7 +144,7 @@ Qed.
 Lemma kind_write_like s : is_reset s = false -> is_fd_error s = false -> kind_of s = KWriteLike.
 Proof. destruct s as [? ? []| | |]; cbn; try reflexivity; try discriminate. destruct fderr; [discriminate|reflexivity]. Qed.
 Lemma kind_fd_error s : is_fd_error s = true -> kind_of s = KFdError.
-Proof. destruct s as [? ? []| | |]; cbn; try discriminate. destruct fderr; [reflexivity|discriminate]. Qed.
+Proof. destruct s as [? ? []| | |]; cbn; try discriminate; try reflexivity. destruct fderr; [reflexivity|discriminate]. Qed.
 
 Lemma beyond_clean (r' : region) np : length (r_dirty r') = N.to_nat np ->
   forallb (fun p => implb (np <=? p) (negb (nthb (r_dirty r' ++ [false; false]) p))) (indices (r_dirty r' ++ [false; false])) = true.
